@@ -277,7 +277,7 @@ func TestGovcBounded_rowwise_filter_projection(t *testing.T) {
 			for _, r := range govcC05Rows {
 				s.Emit(govcCopy(r))
 			}
-			deadline := time.Now().Add(2 * time.Second)
+			deadline := time.Now().Add(15 * time.Second)
 			for time.Now().Before(deadline) {
 				mu.Lock()
 				n := len(sunk)
